@@ -94,7 +94,7 @@ Section Global.
   Inductive gstep : gstate -> gstate -> Prop :=
   | GStep g a hint e :
       honest a = true -> msg_adm (gw g) e ->
-      gstep g (gupd g a (fst (fst (step c a true hint e (g a))))).
+      gstep g (gupd g a (fst (fst (step c a src_dq hint e (g a))))).
 
   Inductive greach : gstate -> Prop :=
   | greach_init : greach (fun _ => init c)
@@ -113,7 +113,7 @@ Section Global.
     intros HG Hs. inversion Hs as [g0 a hint e Ha Hadm]; subst.
     pose proof (step_inv c a honest members_nodup Ha (gw g) byz_bound hint e (g a) (HG a Ha)
                   (msg_adm_ev_adm g a e Hadm)) as S.
-    destruct (step c a true hint e (g a)) as [[s' o] r]. simpl. destruct S as [I' [[pre Hp] _]].
+    destruct (step c a src_dq hint e (g a)) as [[s' o] r]. simpl. destruct S as [I' [[pre Hp] _]].
     intros b Hb. unfold gupd at 2. destruct (N.eqb_spec b a) as [->|Hne].
     - eapply Inv_mono; [|exact I']. intros x Hx e0 He. unfold gw, gupd.
       destruct (N.eqb_spec x a); [contradiction|exact He].
